@@ -1948,8 +1948,21 @@ V(id='c14-div-straddling-zero', prop='C14', file='mpmath/libmp/libmpi.py',
 
 # ---- C39 N-R6 ----
 V(id='c39-nint-half-integer-rounds-down', prop='C39', file='mpmath/ctx_mp.py',
-  old="                n = (man >> 1) + 1\n                re_dist = 0", new="                n = (man >> 1)\n                re_dist = 1", expect='fire:N-R6:nint_distance')
+  old="                n = (man>>1)+1\n                re_dist = 0", new="                n = (man>>1)+2\n                re_dist = 0", expect='fire:N-R6:nint_distance')
 V(id='c39-nint-rational-distance-from-floor', prop='C39', file='mpmath/ctx_mp.py',
   old="            d = bitcount(abs(p-n*q)) - bitcount(q)", new="            d = bitcount(r) - bitcount(q)", expect='fire:N-R6:nint_distance')
 V(id='c39-nint-small-magnitude-threshold', prop='C39', file='mpmath/ctx_mp.py',
   old="        if mag < 0:\n            n = 0\n            re_dist = mag", new="        if mag < 1:\n            n = 0\n            re_dist = mag", expect='fire:N-R6:nint_distance')
+
+# ---- C08 W-R5: probe on the decimal side is no probe ----
+V(id='c08-probe-on-decimal-number', prop='C08', file='mpmath/libmp/libmpf.py',
+  old="        sd2 = bin_to_radix(sf+1, fixprec, 10, fixdps)", new="        sd2 = sd + 1", expect='fire:W-R5:_floor_digits')
+
+# ---- C35 Q-R7 / Q-R8 ----
+V(id='c35-norm-margin-removed', prop='C35', file='mpmath/identification.py',
+  old="            norm //= 100\n", new="", expect='fire:Q-R7:pslq')
+V(id='c35-norm-margin-benign', prop='C35', file='mpmath/identification.py',
+  old="            norm //= 100\n", new="            norm //= 128\n", expect='silent')
+V(id='c35-identify-negative-drops-tol', prop='C35', file='mpmath/identification.py',
+  old="        sol = ctx.identify(-x, constants, tol, maxcoeff, full, verbose)", new="        sol = ctx.identify(-x, constants, maxcoeff=maxcoeff, full=full, verbose=verbose)",
+  expect='fire:Q-R8:identify')
